@@ -102,7 +102,8 @@ def big_inputs():
     mpk = b"\xdd" + (n // 3).to_bytes(4, "big") + b"\x81\xa1i\x01" * (n // 3)
     res = [yaml_block, yaml_flow, js, toml, toml_edge, mpk]
     assert all((1 << 20) + 1000 < len(x) < (2 << 20) for x in res), [len(x) for x in res]
-    return res
+    # UTF-16 YAML under 2 MiB whose UTF-8 re-encoding is over 2 MiB
+    return res + corpus.big_reencoded()
 
 
 def short_hex(data):
